@@ -44,6 +44,15 @@ def witnesses(lo, hi):
 
 
 def run(facts_path):
+    try:
+        return _run(facts_path)
+    except AnalysisIncomplete:
+        raise
+    except Exception as e:          # another shape than this driver expects: nothing decided, nothing claimed
+        return {'records': [], 'notes': [f"format::write_u32: the stage could not drive the function ({type(e).__name__}: {str(e)[:160]}); undecided"], 'instances': 0, 'classes': 0}
+
+
+def _run(facts_path):
     from .interp import Interp, State
     from .models import Models
     from .spec import Spec
